@@ -221,6 +221,19 @@ def run(ctx):
     for w, f in pairs:
         check_tuple_rejects(ctx, w, f, bt)
         ctx.case(("tuple", w, f))
+    # the CVI words (lsb unsigned, msb signed, 64 bits each) given directly: a word outside its range is rejected when a value is built
+    # from it - never reinterpreted modulo 2**64
+    words_l = [-1, -(1 << 63), -(1 << 64), 0, 1, T64 - 1, T64, T64 + 1, 1 << 65, (1 << 64) + (1 << 63)]
+    words_m = [-(1 << 63) - 1, -(1 << 63), -1, 0, 1, (1 << 63) - 1, 1 << 63, (1 << 63) + 1, T64 - 1, T64, -(1 << 64), -(1 << 64) + 5]
+    for l_ in words_l:
+        for m_ in words_m:
+            for cls_ in (bt.TimeDelta, bt.DateTime):
+                o = outcome(lambda: cls_.from_tuple(bt.TimeValueTuple.from_cvi(l_, m_)).ticks)
+                ok_words = 0 <= l_ < T64 and -(1 << 63) <= m_ < (1 << 63)
+                ctx.case(("from_cvi", l_, m_, cls_.__name__))
+                if (ok_words and o != ("ok", m_ * T64 + l_)) or (not ok_words and o[:2] != ("err", "OverflowError")):
+                    ctx.violation(path=f"{cls_.__name__}.from_tuple(TimeValueTuple.from_cvi(lsb, msb))", lsb=l_, msb=m_, observed=show(o),
+                                  required=(f"ticks {m_ * T64 + l_}" if ok_words else "OverflowError (a word outside its 64-bit range)"))
     # constructors: TimeDelta(int seconds) is seconds << 64, range-checked
     for s in [0, 1, -1, (1 << 63) - 1, 1 << 63, -(1 << 63), -(1 << 63) - 1, 1 << 64]:
         o = outcome(bt.TimeDelta, s)
